@@ -219,11 +219,13 @@ def _models(cfg):
             g.ob("compute_next:requires prev < sim_time", rv(wn._prev_sim_time) < rv(wn.sim_time))
             g.ob("compute_next:requires rule instants are positive multiples (rule_iter >= 1)", iv(sim.fields["_rule_iter"]) >= 1)
             g.ob("compute_next:requires next rule instant after the last accepted time", z3.ToReal(iv(sim.fields["_rule_iter"]) * rts) > rv(wn._prev_sim_time))
+            g.ob("compute_next:requires the next rule instant is the first one after the last accepted time (none skipped)",
+                 z3.ToReal((iv(sim.fields["_rule_iter"]) - 1) * rts) <= z3.If(rv(wn._prev_sim_time) >= 0, rv(wn._prev_sim_time), 0))
             fs = tb(first_step)
             g.ob("compute_next:requires first_step iff sim_time == 0 and prev == -1",
                  z3.Implies(fs, z3.And(rv(wn.sim_time) == 0, rv(wn._prev_sim_time) == -1)))
             t2, r2 = p.fresh("accepted_time", "int"), p.fresh("rule_iter", "int")
-            p.assume(z3.And(z3.ToReal(t2.t) > rv(wn._prev_sim_time), z3.ToReal(t2.t) <= rv(wn.sim_time), r2.t >= 1, r2.t * rts > t2.t))
+            p.assume(z3.And(z3.ToReal(t2.t) > rv(wn._prev_sim_time), z3.ToReal(t2.t) <= rv(wn.sim_time), r2.t >= 1, r2.t * rts > t2.t, (r2.t - 1) * rts <= z3.If(t2.t >= 0, t2.t, 0)))
             wn.sim_time = t2
             sim.fields["_rule_iter"] = r2
             g.fresh = False
@@ -338,6 +340,7 @@ def _inv(cfg):
         out = [("prev_before_sim_time", pv < st),
                ("times_are_whole_seconds", z3.And(z3.IsInt(st), z3.IsInt(pv))),
                ("rule_grid_positive_and_after_last_accepted_time", z3.And(ri >= 1, z3.ToReal(ri * rts) > pv, z3.Implies(res, z3.ToReal(ri * rts) > st))),
+               ("no_rule_instant_skipped", z3.ToReal((ri - 1) * rts) <= z3.If(res, z3.If(st >= 0, st, 0), z3.If(pv >= 0, pv, 0))),
                ("saved_times_not_after_last_accepted_time", z3.ToReal(iv(g.last_saved)) <= pv),
                ("trial_within_limit_while_resolving", z3.Implies(res, z3.And(iv(L["trial"]) >= 0, iv(L["trial"]) <= iv(L["max_trials"])))),
                ("first_step_means_time_zero", z3.Implies(tb(L["first_step"]), z3.And(st == 0, pv == -1))),
